@@ -257,6 +257,8 @@ TARGETED = {
     "nested_andor_left": "def f():\n    if (t(1) or t(2)) and t(3):\n        return c(4)\n    return c(5)\n",
     "andor_in_call_arg": "def f():\n    return c(9, t(1) and t(2), t(3) or t(4))\n",
     "andor_value": "def f():\n    y = v(1) or v(2)\n    z = v(3) and v(4)\n    return c(5, y, z)\n",
+    "shadow_next": "def f():\n    next = c(1)\n    for x in it(2):\n        c(3, x)\n    return c(4, next)\n",
+    "shadow_iter": "def f():\n    iter = c(1)\n    for x in it(2):\n        c(3, x)\n    return c(4, iter)\n",
     "return_in_loop_else": "def f():\n    for x in it(1):\n        c(2)\n    else:\n        return c(3)\n    return c(4)\n",
     "continue_in_while_else_if": "def f():\n    while t(1):\n        if t(2):\n            continue\n        elif t(3):\n            break\n        c(4)\n    else:\n        c(5)\n    return c(6)\n",
 }
@@ -332,6 +334,10 @@ def source_shapes(src: str) -> str:
             for m in ast.walk(tree):
                 if isinstance(m, ast.Name) and m.id == n.target.id and id(m) not in inside and m is not n.target:
                     shapes.add("for-target-used-outside-loop-body")
+    for n in ast.walk(tree):
+        if isinstance(n, ast.Name) and isinstance(n.ctx, ast.Store) and n.id in ("iter", "next") \
+                and any(isinstance(m, ast.For) for m in ast.walk(tree)):
+            shapes.add("binds-builtin-used-by-for-lowering")
     return ",".join(sorted(shapes))
 
 
